@@ -47,21 +47,69 @@ def _call(f):
     return _call0(f, errors=(ValueError, IndexError))
 
 
-def _fit(ctx, f, sig, desc):
-    """Fit an estimator on a valid (non-empty) input.  An exception that comes out of the library means that no
-    label is assigned at all: reported as a failing input.  An exception raised by this file is a tool failure."""
+def _fit(ctx, f, sig, desc, refusal_expected=False):
+    """Fit an estimator.  Returns 'ok', or 'err <Class>' when the fit raised a ValueError/IndexError on an input the
+    model refuses too (`refusal_expected`: the run line then compares the two refusals).  Any other exception that
+    comes out of the library means that no label is assigned on an input the model accepts: reported as a failing
+    input (returns None).  An exception raised by this file is a tool failure."""
     import traceback
     try:
         f()
-        return True
+        return 'ok'
     except Exception as e:
         tb = traceback.extract_tb(e.__traceback__)
         if tb and tb[-1].filename.endswith('c05.py'):
             raise
+        ctx.count('fit-error:%s:%s' % (sig.get('entry'), type(e).__name__))
+        if refusal_expected and isinstance(e, (ValueError, IndexError)):
+            return 'err ' + type(e).__name__
         ctx.spec_fail(dict(sig, output='fit raised'), desc,
                       {'exception': repr(e), 'where': '%s:%s' % (tb[-1].filename, tb[-1].lineno) if tb else None})
-        ctx.count('fit-error:%s:%s' % (sig.get('entry'), type(e).__name__))
+        return None
+
+
+def routed_bipartite(b, force_bipartite):
+    """get_adjacency's decision, recomputed here (never taken from the estimator)"""
+    return bool(force_bipartite) or b.shape[0] != b.shape[1]
+
+
+def pre_refusal_expected(b, bip, modularity):
+    """Mirror of `preProcessingOK` (Lean decides on the run line; this only classifies a raise):
+    unknown modularity, or node weights refused by get_probs('degree', ...)."""
+    modularity = str(modularity).lower()
+    if modularity not in ('dugue', 'newman', 'potts'):
+        return True
+    if modularity == 'potts':
         return False
+    a = sparse.csr_matrix(b).astype(float)
+    rows = np.asarray(a.sum(axis=1)).ravel()
+    cols = np.asarray(a.sum(axis=0)).ravel()
+
+    def bad(v):
+        return bool(np.any(v < 0) or v.sum() <= 0)
+    if modularity == 'newman':
+        return bad(np.concatenate([rows, cols])) if bip else bad(rows)
+    return bad(rows) or bad(cols)
+
+
+def as_container(b, container):
+    if container == 'csc':
+        return sparse.csc_matrix(b)
+    if container == 'coo':
+        return sparse.coo_matrix(b)
+    if container == 'lil':
+        return sparse.lil_matrix(b)
+    if container == 'dense':
+        return b.toarray()
+    return b
+
+
+def check_int_dtype(ctx, est, names, sig, desc):
+    """'exactly one *integer* label': enc_list truncates with int(), so the dtype is checked here"""
+    for nm in names:
+        v = getattr(est, nm, None)
+        if v is not None and not (np.issubdtype(np.asarray(v).dtype, np.integer)):
+            ctx.spec_fail(dict(sig, output=nm + ' dtype'), desc, {'dtype': str(np.asarray(v).dtype)})
 
 
 # ---------------------------------------------------------------------------------------------
@@ -136,6 +184,12 @@ def label_vector_cases(ctx, vec):
         return 'ok %s %s %s' % (enc_list(u), enc_list(i), enc_list(c))
     out.append(Case(('unique', ev), {'entry': 'np.unique'}, 'c05.unique ' + ev, _call(fu), None, nontriv, desc))
     # get_membership with and without n_labels
+    if not vec:
+        def fm0():
+            m = get_membership(arr, n_labels=2)
+            return 'ok %d %s' % (m.shape[1], '-')
+        out.append(Case(('membership', ev, 2), {'entry': 'get_membership'}, 'c05.membership - 2', _call(fm0), None,
+                        False, dict(desc, n_labels=2)))
     if vec:
         for k in (None, max(vec) + 2 if max(vec) >= -1 else 1, max(vec) if max(vec) >= 1 else 0):
             def fm():
@@ -159,9 +213,9 @@ def label_vectors(ctx):
     if ctx.quick:
         vs = vs[:40] + rng.sample(vs[40:], 120)
     for _ in range(60 if ctx.quick else 600):
-        n = rng.choice([3, 6, 10, 17, 25, 40, 60])
-        k = rng.randint(1, max(1, min(n, 9)))
-        base = rng.sample(range(-3, 30), k)
+        n = rng.choice([3, 6, 10, 17, 25, 40, 60, 90, 120])
+        k = rng.randint(1, max(1, min(n, rng.choice([9, 9, 24, 40]))))
+        base = rng.sample(range(-3, 60), k)
         mode = rng.random()
         if mode < 0.4:      # many ties in the sizes
             v = [base[i % k] for i in range(n)]
@@ -257,20 +311,34 @@ def secondary_cases(ctx, name, est, b, bip, sig0, desc, key0):
     return out
 
 
-def louvain_cases(ctx, cls_name, b, params, force_bipartite):
+def louvain_cases(ctx, cls_name, b, params, force_bipartite, container='csr', light=False):
     from sknetwork.clustering import Louvain, Leiden
     cls = {'Louvain': Louvain, 'Leiden': Leiden}[cls_name]
     desc = {'kind': 'estimator', 'est': cls_name, 'params': params, 'force_bipartite': force_bipartite,
-            'graph': gdesc(b)}
+            'graph': gdesc(b), 'container': container}
     sig0 = {'entry': cls_name, 'sort_clusters': params.get('sort_clusters', True),
             'shuffle_nodes': params.get('shuffle_nodes', False)}
-    key0 = (cls_name, enc_csr(b), tuple(sorted(params.items())), force_bipartite)
+    key0 = (cls_name, enc_csr(b), tuple(sorted(params.items())), force_bipartite, container)
     est = cls(**params)
     rec = Recorder(est)
-    if not _fit(ctx, lambda: est.fit(b, force_bipartite=force_bipartite), sig0, desc):
-        return []
-    bip = bool(est.bipartite)
+    bip = routed_bipartite(b, force_bipartite)
     sig0['bipartite'] = bip
+    x = as_container(b, container)
+    res = _fit(ctx, lambda: est.fit(x, force_bipartite=force_bipartite), sig0, desc,
+               refusal_expected=pre_refusal_expected(b, bip, est.modularity) or b.nnz == 0)
+    if res is None:
+        return []
+    head = '%s %s %s %d' % (enc_csr(b), enc_bool(force_bipartite), est.modularity or '_', est.n_aggregations)
+    cmd = 'c05.louvain' if cls_name == 'Louvain' else 'c05.leiden'
+    if res != 'ok':
+        # a refusal the model shares: routing / modularity / node weights
+        mid = '- -' if cls_name == 'Louvain' else '- - -'
+        return [Case(key0 + ('refusal',), dict(sig0, output='refusal'),
+                     '%s %s %s %s %s %s' % (cmd, head, mid, opt(rec.index), enc_bool(est.sort_clusters),
+                                            enc_bool(est.shuffle_nodes)), res, None, False, desc)]
+    if bool(est.bipartite) != bip:
+        ctx.spec_fail(dict(sig0, output='bipartite flag'), desc, {'estimator': bool(est.bipartite), 'routing': bip})
+    check_int_dtype(ctx, est, ('labels_', 'labels_row_', 'labels_col_'), sig0, desc)
     lab = all_labels(est)
     n_all = b.shape[0] + (b.shape[1] if bip else 0)
     nontriv = len(lab) > 0 and max(lab) >= 1
@@ -282,19 +350,18 @@ def louvain_cases(ctx, cls_name, b, params, force_bipartite):
     raws = [lv[1] for lv in rec.levels]
     flags = [1 if lv[2] <= est.tol_aggregation else 0 for lv in rec.levels]
     tail = '%s %s %s' % (enc_list(rec.index), enc_bool(est.sort_clusters), enc_bool(est.shuffle_nodes))
-    head = '%d %d %d %s 1 %d' % (b.shape[0], b.shape[1], b.nnz, enc_bool(force_bipartite), est.n_aggregations)
     impl = 'ok %d %s' % (len(rec.levels), fitted_str(est))
     if cls_name == 'Louvain':
-        run = 'c05.louvain %s %s %s %s' % (head, enc_listlist(raws), enc_list(flags), tail)
+        run = '%s %s %s %s %s' % (cmd, head, enc_listlist(raws), enc_list(flags), tail)
     else:
-        run = 'c05.leiden %s %s %s %s %s' % (head, enc_listlist(raws), enc_listlist(rec.refined), enc_list(flags), tail)
+        run = '%s %s %s %s %s %s' % (cmd, head, enc_listlist(raws), enc_listlist(rec.refined), enc_list(flags), tail)
     eff = raws if cls_name == 'Louvain' else (list(rec.refined[:-1]) + [raws[-1]])
     spec = 'c05.spec_post %s %s %s %s' % (enc_listlist(eff), enc_list(rec.index), enc_bool(est.shuffle_nodes),
                                           enc_list(lab))
     out.append(Case(key0 + ('pipeline',), dict(sig0, output='pipeline'), run, impl, spec, nontriv, desc,
                     canon='fitted_sorted' if est.sort_clusters else None))
     ctx.count('levels:%d' % len(rec.levels))
-    if rec.adj0 is not None:
+    if rec.adj0 is not None and not light:
         k0 = rec.adj0.copy()
         k0.eliminate_zeros()
         out.append(Case(key0 + ('shuffle',), dict(sig0, output='shuffled adjacency'), None, None,
@@ -304,6 +371,15 @@ def louvain_cases(ctx, cls_name, b, params, force_bipartite):
     for t, lv in enumerate(rec.levels):
         if len(lv[1]) != len(lv[0]):
             ctx.spec_fail(dict(sig0, output='contract:KernelLen'), desc, {'level': t, 'in': len(lv[0]), 'out': len(lv[1])})
+    if est.tol_aggregation >= 0:
+        # contracts behind the total (fuel-free) theorems
+        for t, lv in enumerate(rec.levels):
+            if cls_name == 'Louvain':
+                out.append(Case(key0 + ('nomerge', t), dict(sig0, output='contract:NoMergeStops'), None, None,
+                                'c05.contract_nomerge %s %d' % (enc_list(lv[1]), flags[t]), True, desc))
+            else:
+                out.append(Case(key0 + ('progress', t), dict(sig0, output='contract:LeidenProgress'), None, None,
+                                'c05.contract_progress %s %d' % (enc_list(rec.refined[t]), flags[t]), True, desc))
     if cls_name == 'Leiden':
         # contract of the refinement kernel assumed by `leiden_fit_valid`
         for t in range(len(rec.levels)):
@@ -319,7 +395,8 @@ def louvain_cases(ctx, cls_name, b, params, force_bipartite):
                             'ok ' + enc_list(rec.levels[t][0]), None, True, desc))
     if bip and list(est.labels_) != list(est.labels_row_):
         ctx.spec_fail(dict(sig0, output='labels_ is labels_row_'), desc, {'labels_': list(map(int, est.labels_))})
-    out += secondary_cases(ctx, cls_name, est, b, bip, sig0, desc, key0)
+    if not light:
+        out += secondary_cases(ctx, cls_name, est, b, bip, sig0, desc, key0)
     return out
 
 
@@ -346,20 +423,29 @@ class PropRecorder:
         self.cls.fit = self.orig
 
 
-def propagation_cases(ctx, b, params, seed=0):
+def propagation_cases(ctx, b, params, seed=0, container='csr', light=False):
     from sknetwork.clustering import PropagationClustering
-    desc = {'kind': 'estimator', 'est': 'PropagationClustering', 'params': params, 'graph': gdesc(b), 'np_seed': seed}
+    desc = {'kind': 'estimator', 'est': 'PropagationClustering', 'params': params, 'graph': gdesc(b), 'np_seed': seed,
+            'container': container}
     np.random.seed(seed)      # node_order='random' shuffles with the global generator
     sig0 = {'entry': 'PropagationClustering', 'sort_clusters': params.get('sort_clusters', True),
             'node_order': params.get('node_order')}
-    key0 = ('PropagationClustering', enc_csr(b), tuple(sorted((k, str(v)) for k, v in params.items())))
+    key0 = ('PropagationClustering', enc_csr(b), tuple(sorted((k, str(v)) for k, v in params.items())), container)
     est = PropagationClustering(**params)
-    with PropRecorder() as rec:
-        ok = _fit(ctx, lambda: est.fit(b), sig0, desc)
-    if not ok:
-        return []
-    bip = bool(est.bipartite)
+    bip = routed_bipartite(b, False)
     sig0['bipartite'] = bip
+    x = as_container(b, container)
+    with PropRecorder() as rec:
+        res = _fit(ctx, lambda: est.fit(x), sig0, desc, refusal_expected=(b.nnz == 0))
+    if res is None:
+        return []
+    if res != 'ok':
+        return [Case(key0 + ('refusal',), dict(sig0, output='refusal'),
+                     'c05.prop %d %d %d - %s' % (b.shape[0], b.shape[1], b.nnz, enc_bool(est.sort_clusters)),
+                     res, None, False, desc)]
+    if bool(est.bipartite) != bip:
+        ctx.spec_fail(dict(sig0, output='bipartite flag'), desc, {'estimator': bool(est.bipartite), 'routing': bip})
+    check_int_dtype(ctx, est, ('labels_', 'labels_row_', 'labels_col_'), sig0, desc)
     lab = all_labels(est)
     n_all = b.shape[0] + (b.shape[1] if bip else 0)
     nontriv = len(lab) > 0 and max(lab) >= 1
@@ -368,7 +454,8 @@ def propagation_cases(ctx, b, params, seed=0):
     run = 'c05.prop %d %d %d %s %s' % (b.shape[0], b.shape[1], b.nnz, enc_list(rec.raw_attr), enc_bool(est.sort_clusters))
     out.append(Case(key0 + ('pipeline',), dict(sig0, output='pipeline'), run, 'ok ' + fitted_str(est), None, nontriv,
                     desc, canon='fitted_sorted0' if est.sort_clusters else None))
-    out += secondary_cases(ctx, 'PropagationClustering', est, b, bip, sig0, desc, key0)
+    if not light:
+        out += secondary_cases(ctx, 'PropagationClustering', est, b, bip, sig0, desc, key0)
     return out
 
 
@@ -380,7 +467,7 @@ class KRecorder:
         self.o_clf = kc.PageRankClassifier
         self.o_mod = kc.get_modularity
         rec = self
-        rec.centers, rec.labels, rec.mods, rec.calls = [], [], [], 0
+        rec.centers, rec.labels, rec.mods, rec.calls, rec.scores, rec.last_scores = [], [], [], 0, [], None
 
         def init(adjacency, mask, n_clusters):
             c = rec.o_init(adjacency, mask, n_clusters)
@@ -391,6 +478,7 @@ class KRecorder:
             def fit_predict(self_, *a, **k):
                 r = super().fit_predict(*a, **k)
                 rec.last = np.asarray(r).copy()
+                rec.last_scores = self_.probs_.toarray()     # the normalised scores the labels are read from
                 rec.calls += 1
                 return r
 
@@ -398,6 +486,7 @@ class KRecorder:
             v = rec.o_mod(*a, **k)
             rec.mods.append(v)
             rec.labels.append(rec.last)
+            rec.scores.append(rec.last_scores)
             return v
         kc.KCenters._init_centers = staticmethod(init)
         kc.PageRankClassifier = Clf
@@ -414,48 +503,49 @@ def kcenters_str(est):
     return '%s %s %s' % (enc_list(est.centers_), opt(attr(est, 'centers_row_')), opt(attr(est, 'centers_col_')))
 
 
-def kcenters_cases(ctx, b, params, force_bipartite, seed):
+def kcenters_cases(ctx, b, params, force_bipartite, seed, container='csr'):
     from sknetwork.clustering import KCenters
     desc = {'kind': 'estimator', 'est': 'KCenters', 'params': params, 'force_bipartite': force_bipartite,
-            'graph': gdesc(b), 'np_seed': seed}
+            'graph': gdesc(b), 'np_seed': seed, 'container': container}
     pos = params.get('center_position', 'row')
     sig0 = {'entry': 'KCenters', 'center_position': pos}
-    key0 = ('KCenters', enc_csr(b), tuple(sorted(params.items())), force_bipartite, seed)
+    key0 = ('KCenters', enc_csr(b), tuple(sorted(params.items())), force_bipartite, seed, container)
     est = KCenters(**params)
     np.random.seed(seed)
+    x = as_container(b, container)
     with KRecorder() as rec:
-        res = _call0(lambda: (est.fit(b, force_bipartite=force_bipartite), 'ok')[1],
+        res = _call0(lambda: (est.fit(x, force_bipartite=force_bipartite), 'ok')[1],
                      errors=(ValueError, IndexError, TypeError))
     nr, nc = b.shape
-    bip = bool(est.bipartite) if est.bipartite is not None else (force_bipartite or nr != nc)
+    bip = routed_bipartite(b, force_bipartite)       # the routing is the model's, not the estimator's word
     sig0['bipartite'] = bip
     out = []
-    head = '%d %d %s %d %d %s' % (est.n_clusters, est.n_init, enc_bool(bip), nr, nc, pos)
-    head_full = '%d %d %d %s %d %d %s' % (est.n_clusters, est.n_init, est.max_iter, enc_bool(bip), nr, nc, pos)
+    head_full = '%d %d %d %s %s %d %d %d %s' % (est.n_clusters, est.n_init, est.max_iter, enc_bool(est.directed),
+                                                enc_bool(force_bipartite), nr, nc, b.nnz, pos)
+    sc_tok = '|'.join(enc_mat(m) for m in rec.scores) if rec.scores else '-'
     if res != 'ok':
         ctx.count('fit-error:KCenters:%s' % res)
         # the refusals of fit are part of the model
         out.append(Case(key0 + ('refuse',), dict(sig0, output='error'),
-                        'c05.kcenters_full %s %s %s 0' % (head_full, enc_listlist(rec.centers), enc_listlist(rec.labels)),
+                        'c05.kcenters_full %s %s %s 0' % (head_full, enc_listlist(rec.centers), sc_tok),
                         res, None, False, desc))
         return out
+    check_int_dtype(ctx, est, ('labels_', 'labels_row_', 'labels_col_', 'centers_', 'centers_row_', 'centers_col_'),
+                    sig0, desc)
     lab = all_labels(est)
     nontriv = len(set(lab)) >= 2
     idx = int(np.argmax(rec.mods))
-    # contract assumed of the assignment (PageRankClassifier): one label in 0..n_clusters-1 per node of the adjacency
     n_nodes = nr + nc if bip else nr
-    for t, l in enumerate(rec.labels):
-        if len(l) != n_nodes or (len(l) and (min(l) < 0 or max(l) >= est.n_clusters)):
-            ctx.spec_fail(dict(sig0, output='contract:assignment'), desc, {'restart': t, 'labels': [int(x) for x in l]})
-    impl = 'ok %s %s' % (fitted_str(est), kcenters_str(est))
-    run = 'c05.kcenters %s %s %s %d' % (head, enc_listlist(rec.centers), enc_listlist(rec.labels), idx)
+    # contract assumed of PageRank: one row of scores per node of the adjacency (one column per centre)
+    for t, m in enumerate(rec.scores):
+        out.append(Case(key0 + ('scores', t), dict(sig0, output='contract:scores shape'), None, None,
+                        'c05.contract_scores %d %d %s' % (n_nodes, est.n_clusters, enc_mat(m)), True, desc))
+    # the whole fit: routing, checks, restarts, assignment loop, read-out of the labels, selection, bookkeeping
     spec = 'c05.spec_kcenters %s %d %d %s %d %s %s' % (
         enc_bool(bip), nr, nc, pos, est.n_clusters, enc_list(lab), kcenters_str(est))
-    out.append(Case(key0 + ('fit',), dict(sig0, output='labels_/centers_'), run, impl, spec, nontriv, desc))
-    # the whole fit with its restarts and assignment loop (number of assignments included)
-    out.append(Case(key0 + ('full',), dict(sig0, output='fit'),
-                    'c05.kcenters_full %s %s %s %d' % (head_full, enc_listlist(rec.centers), enc_listlist(rec.labels), idx),
-                    'ok %d %s %s' % (rec.calls, fitted_str(est), kcenters_str(est)), None, nontriv, desc))
+    out.append(Case(key0 + ('full',), dict(sig0, output='labels_/centers_'),
+                    'c05.kcenters_full %s %s %s %d' % (head_full, enc_listlist(rec.centers), sc_tok, idx),
+                    'ok %d %s %s' % (rec.calls, fitted_str(est), kcenters_str(est)), spec, nontriv, desc))
     # _init_centers: bookkeeping of the mask for every restart
     for t, c in enumerate(rec.centers):
         out.append(Case(key0 + ('init', t), dict(sig0, output='_init_centers'),
@@ -523,7 +613,16 @@ def _same(c, model, impl, spec_ok):
 
 
 def evaluate(ctx, cases):
-    # spec-only cases carry no run line; vlib's evaluate handles `run=None`
+    """vlib's evaluate (spec-only cases carry no run line) after screening the answers to spec / contract lines:
+    `bad-args` / `unknown-cmd` there is a failure of the tooling (exit 2), never a failing input."""
+    specs = [c.spec for c in cases if c.spec]
+    if specs:
+        probe = {}
+        answers = ctx.lean(specs)
+        for ln, an in zip(specs, answers):
+            if an == 'bad-args' or an.startswith('unknown-cmd'):
+                raise ToolFailure('driver rejected spec line %r -> %r' % (ln[:300], an))
+            probe[ln] = an
     _evaluate(ctx, cases, same=_same)
 
 
@@ -625,13 +724,13 @@ def graph_stream(ctx):
 
 def louvain_params(rng, full=False):
     p = {'modularity': rng.choice(['dugue', 'newman', 'potts', 'Dugue']),
-         'resolution': rng.choice([1, 1, 0.5, 2]),
+         'resolution': rng.choice([1, 1, 0.5, 2, 0.1, 3.5]),
          'shuffle_nodes': rng.random() < 0.5,
          'sort_clusters': rng.random() < 0.6,
          'return_probs': rng.random() < 0.8,
          'return_aggregate': rng.random() < 0.8,
-         'n_aggregations': rng.choice([-1, -1, 1, 2]),
-         'tol_aggregation': rng.choice([1e-3, 1e-3, 0.05, 1e-6]),
+         'n_aggregations': rng.choice([-1, -1, 1, 2, 3]),
+         'tol_aggregation': rng.choice([1e-3, 1e-3, 0.05, 1e-6, 0, 0.0]),
          'random_state': rng.randrange(1000)}
     return p
 
@@ -646,13 +745,15 @@ def estimator_cases(ctx, name, b, reps=1, kcenters=True):
     rng = ctx.rng
     out = []
     square = b.shape[0] == b.shape[1]
+    def cont():
+        return rng.choice(['csr'] * 8 + ['csc', 'coo', 'lil', 'dense'])
     for _ in range(reps):
         fb = square and rng.random() < 0.25
-        out += louvain_cases(ctx, 'Louvain', b, louvain_params(rng), fb)
+        out += louvain_cases(ctx, 'Louvain', b, louvain_params(rng), fb, cont())
         fb = square and rng.random() < 0.25
-        out += louvain_cases(ctx, 'Leiden', b, louvain_params(rng), fb)
+        out += louvain_cases(ctx, 'Leiden', b, louvain_params(rng), fb, cont())
         if rng.random() < 0.85:
-            out += propagation_cases(ctx, b, prop_params(rng), rng.randrange(10 ** 6))
+            out += propagation_cases(ctx, b, prop_params(rng), rng.randrange(10 ** 6), cont())
     if kcenters:
         fb = square and rng.random() < 0.3
         bip = fb or not square
@@ -663,7 +764,8 @@ def estimator_cases(ctx, name, b, reps=1, kcenters=True):
         if rng.random() < 0.06:
             k = rng.choice([1, 0])                     # refused: fewer than 2 clusters
         params = {'n_clusters': k, 'center_position': pos, 'n_init': rng.choice([1, 2, 1, 2, 1, 2, 0]),
-                  'directed': (not bip) and rng.random() < 0.3, 'max_iter': rng.choice([20, 20, 1, 0])}
+                  'directed': rng.random() < 0.3, 'max_iter': rng.choice([20, 20, 1, 0])}
+        # KCenters does not convert its input (no check_format): csr only, except for the symmetrised `directed` path
         out += kcenters_cases(ctx, b, params, fb, rng.randrange(10 ** 6))
     ctx.count('graph:' + name)
     return out
@@ -714,34 +816,35 @@ def aggregate_graph_cases(ctx, b, variants=2):
 
 
 def refusal_cases(ctx):
-    """Inputs the estimators refuse: no stored entry (check_format), unknown modularity (_pre_processing)."""
-    from sknetwork.clustering import Louvain, Leiden, PropagationClustering, KCenters
+    """Inputs the estimators refuse, and the neighbouring inputs they accept: no stored entry (check_format), unknown
+    modularity, node weights refused by get_probs (all stored entries zero, negative degrees — per modularity kind),
+    KCenters' argument checks and `directed=True` on a non-square input."""
     out = []
-    for shape in ((3, 3), (2, 3)):
-        e = sparse.csr_matrix(shape, dtype=float)
-        d = {'kind': 'refusal', 'shape': list(shape)}
-        for name, cls in (('Louvain', Louvain), ('Leiden', Leiden)):
-            impl = _call(lambda: (cls().fit(e), 'ok')[1])
-            cmd = 'c05.louvain' if name == 'Louvain' else 'c05.leiden'
-            mid = '- -' if name == 'Louvain' else '- - -'
-            out.append(Case(('refuse', name, shape), {'entry': name, 'output': 'refusal'},
-                            '%s %d %d 0 0 1 -1 %s - 1 0' % (cmd, shape[0], shape[1], mid), impl, None, False, d))
-        impl = _call(lambda: (PropagationClustering().fit(e), 'ok')[1])
-        out.append(Case(('refuse', 'prop', shape), {'entry': 'PropagationClustering', 'output': 'refusal'},
-                        'c05.prop %d %d 0 - 1' % shape, impl, None, False, d))
+    empty_sq = sparse.csr_matrix((3, 3), dtype=float)
+    empty_re = sparse.csr_matrix((2, 3), dtype=float)
+    zeros = sparse.csr_matrix((np.array([0., 0.]), (np.array([0, 1]), np.array([1, 0]))), shape=(3, 3))
+    neg = sparse.csr_matrix(np.array([[0, 2, -1], [2, 0, 0], [-1, 0, 0.]]))
+    negcol = sparse.csr_matrix(np.array([[0, 2, 0], [0, 0, 1], [-1, 0, 3.]]))
+    bineg = sparse.csr_matrix(np.array([[1, 0, -1], [0, 1, 0.]]))
     a = mk(3, [(0, 1), (1, 0)], [1.0, 1.0])
     bi = mk(2, [(0, 0), (1, 2)], [1.0, 1.0], m=3)
+    for mat in (empty_sq, empty_re, zeros, neg, negcol, bineg):
+        for cn in ('Louvain', 'Leiden'):
+            for mod in ('dugue', 'newman', 'potts'):
+                out += [c for c in louvain_cases(ctx, cn, mat, {'modularity': mod, 'n_aggregations': 3,
+                                                                'return_probs': False, 'return_aggregate': False},
+                                                 False, light=True)
+                        if c.sig.get('output') in ('refusal', 'pipeline', 'labels_')]
+        out += [c for c in propagation_cases(ctx, mat, {'return_probs': False, 'return_aggregate': False},
+                                             light=True) if c.sig.get('output') in ('refusal', 'pipeline', 'labels_')]
+    for cn in ('Louvain', 'Leiden'):
+        out += louvain_cases(ctx, cn, a, {'modularity': 'foo'}, False)
     for params, mat in (({'n_clusters': 1}, a), ({'n_clusters': 0}, a), ({'n_clusters': 2, 'n_init': 0}, a),
                         ({'n_clusters': 4}, a), ({'n_clusters': 3, 'center_position': 'row'}, bi),
-                        ({'n_clusters': 2, 'center_position': 'foo'}, bi), ({'n_clusters': 2, 'max_iter': 0}, a)):
+                        ({'n_clusters': 2, 'center_position': 'foo'}, bi), ({'n_clusters': 2, 'max_iter': 0}, a),
+                        ({'n_clusters': 2, 'directed': True}, bi), ({'n_clusters': 2, 'directed': True}, a),
+                        ({'n_clusters': 2}, empty_sq), ({'n_clusters': 2}, empty_re)):
         out += kcenters_cases(ctx, mat, params, False, 1)
-    for name, cls in (('Louvain', Louvain), ('Leiden', Leiden)):
-        impl = _call(lambda: (cls(modularity='foo').fit(a), 'ok')[1])
-        cmd = 'c05.louvain' if name == 'Louvain' else 'c05.leiden'
-        mid = '- -' if name == 'Louvain' else '- - -'
-        out.append(Case(('refuse-mod', name), {'entry': name, 'output': 'refusal'},
-                        '%s 3 3 2 0 0 -1 %s 0,1,2 1 0' % (cmd, mid), impl, None, False,
-                        {'kind': 'refusal', 'modularity': 'foo'}))
     return out
 
 
@@ -769,11 +872,12 @@ def cases_of_desc(ctx, d):
         return aggregate_graph_replay(ctx, d)
     b = gfrom(d['graph'])
     if d['est'] in ('Louvain', 'Leiden'):
-        return louvain_cases(ctx, d['est'], b, d['params'], d.get('force_bipartite', False))
+        return louvain_cases(ctx, d['est'], b, d['params'], d.get('force_bipartite', False), d.get('container', 'csr'))
     if d['est'] == 'PropagationClustering':
-        return propagation_cases(ctx, b, d['params'], d.get('np_seed', 0))
+        return propagation_cases(ctx, b, d['params'], d.get('np_seed', 0), d.get('container', 'csr'))
     if d['est'] == 'KCenters':
-        return kcenters_cases(ctx, b, d['params'], d.get('force_bipartite', False), d.get('np_seed', 0))
+        return kcenters_cases(ctx, b, d['params'], d.get('force_bipartite', False), d.get('np_seed', 0),
+                              d.get('container', 'csr'))
     raise ToolFailure('unknown replay case %r' % (d,))
 
 
@@ -798,9 +902,45 @@ def aggregate_graph_replay(ctx, d):
                  'c05.aggregate_graph %s %s' % (g, ' '.join(toks)), impl, spec, True, d, canon='agg')]
 
 
+def big_graph_cases(ctx):
+    """Graphs of 40-150 nodes with equal-size communities: more than 16 clusters (ties in argsort by design),
+    several aggregation levels; labels and pipeline lines only (the secondary outputs are covered on small graphs)."""
+    rng = ctx.rng
+    out = []
+    for _ in range(4 if ctx.quick else 24):
+        size = rng.choice([2, 3, 4, 5])
+        k = rng.randint(max(9, 40 // size), 150 // size)
+        n = size * k
+        es = []
+        for c in range(k):
+            nodes = list(range(c * size, (c + 1) * size))
+            for i in nodes:
+                for j in nodes:
+                    if i < j:
+                        es += [(i, j), (j, i)]
+            if rng.random() < 0.6:                       # a light link to the next community
+                j = ((c + 1) % k) * size
+                es += [(nodes[0], j), (j, nodes[0])]
+        b = mk(n, sorted(set(es)), [1.0] * len(set(es)))
+        if rng.random() < 0.3:
+            perm = list(range(n))
+            rng.shuffle(perm)
+            b = graphs.permute_csr(b, perm)
+        for cn in ('Louvain', 'Leiden'):
+            p = louvain_params(rng)
+            p.update({'n_aggregations': -1, 'tol_aggregation': rng.choice([1e-6, 0, 1e-3]), 'return_probs': False,
+                      'return_aggregate': False})
+            out += louvain_cases(ctx, cn, b, p, False, light=True)
+        pp = prop_params(rng)
+        pp.update({'return_probs': False, 'return_aggregate': False})
+        out += propagation_cases(ctx, b, pp, rng.randrange(10 ** 6), light=True)
+        ctx.count('graph:big%d' % (n // 50 * 50))
+    return out
+
+
 def build_cases(ctx):
     rng = ctx.rng
-    cases = corpus_cases(ctx) + refusal_cases(ctx)
+    cases = corpus_cases(ctx) + refusal_cases(ctx) + big_graph_cases(ctx)
     for v in label_vectors(ctx):
         cases += label_vector_cases(ctx, v)
     gs = graph_stream(ctx)
@@ -818,40 +958,62 @@ def run(ctx):
 
 # -- failing-input search -------------------------------------------------------------------------
 def search(ctx, pending):
-    """The Lean specification on the implementation over the exhaustive small space x option grid."""
+    """The Lean specification (spec / contract lines only) on the implementation over the small space x option grid:
+    every graph also as bool / int / integer-weighted copy, (return_probs, return_aggregate) in all three useful
+    combinations, sort x shuffle; all collected in a Sub context (counters of the main run are untouched)."""
     import itertools
+    sub = Sub(ctx)
     rng = ctx.rng
     cases = []
     for n in range(1, 5):
         for v in itertools.product(range(3), repeat=n):
-            cases += [c for c in label_vector_cases(ctx, list(v)) if c.spec]
-    gs = []
+            cases += [c for c in label_vector_cases(sub, list(v)) if c.spec]
+    base = []
     for n in (2, 3):
         for es in graphs.all_undirected(n, loops=True):
             if es:
-                gs.append(mk(n, es, [1.0] * len(es)))
+                base.append(mk(n, es, [1.0] * len(es)))
     for es in graphs.all_digraphs(3):
         if es:
-            gs.append(mk(3, es, [1.0] * len(es)))
+            base.append(mk(3, es, [1.0] * len(es)))
+    for es in rng.sample(list(graphs.all_undirected(4)), 25):
+        if es:
+            base.append(mk(4, es, [1.0] * len(es)))
     for nr, nc in ((1, 2), (2, 2), (2, 3)):
         for es in graphs.all_bipartite(nr, nc):
             if es:
-                gs.append(mk(nr, es, [1.0] * len(es), m=nc))
+                base.append(mk(nr, es, [1.0] * len(es), m=nc))
     for name, n, es, w in graphs.suite(rng, 30, 4, 10):
         if es:
-            gs.append(mk(n, es, [1.0] * len(es)))
-    for b in gs:
+            base.append(mk(n, es, [1.0] * len(es)))
+    gs = []
+    for i, b in enumerate(base):
+        gs.append(b)
+        variant = i % 3
+        if variant == 0:
+            gs.append(b.astype(bool))
+        elif variant == 1:
+            gs.append(b.astype(int))
+        else:
+            w = b.copy()
+            w.data = np.array([float(rng.randint(1, 4)) for _ in w.data])
+            gs.append(w)
+    combos = [(True, True), (False, True), (True, False)]
+    for gi, b in enumerate(gs):
         for so in (True, False):
+            rp, ra = combos[(gi + (1 if so else 0)) % 3]
             for sh in (False, True):
-                p = {'sort_clusters': so, 'shuffle_nodes': sh, 'random_state': 1}
+                p = {'sort_clusters': so, 'shuffle_nodes': sh, 'random_state': 1, 'return_probs': rp,
+                     'return_aggregate': ra}
                 for cn in ('Louvain', 'Leiden'):
-                    cases += [c for c in louvain_cases(ctx, cn, b, p, False) if c.spec]
-            cases += [c for c in propagation_cases(ctx, b, {'sort_clusters': so}) if c.spec]
+                    cases += [c for c in louvain_cases(sub, cn, b, p, False) if c.spec]
+            cases += [c for c in propagation_cases(sub, b, {'sort_clusters': so, 'return_probs': rp,
+                                                            'return_aggregate': ra}) if c.spec]
         if sum(b.shape) <= 5:
             for pos in ('row', 'col', 'both'):
-                cases += [c for c in kcenters_cases(ctx, b, {'n_clusters': 2, 'center_position': pos, 'n_init': 1},
+                cases += [c for c in kcenters_cases(sub, b, {'n_clusters': 2, 'center_position': pos, 'n_init': 1},
                                                     False, 1) if c.spec]
-    sub = Sub(ctx)
+        cases += [c for c in aggregate_graph_cases(sub, b, variants=1) if c.spec]
     for c in cases:
         c.run = None
     evaluate(sub, cases)
